@@ -65,7 +65,7 @@ def draw_ctx_factory(cap_mass):
 
 
 def run_molecule(text, sched_kwargs, props=("C04", "C05", "C06", "C07", "C08"), embed="stub", embed_fault_at=None,
-                 forced_draws=None, cap_mass=None, wall=60, expect_complete=True, ast=None, keep_world=True):
+                 forced_draws=None, cap_mass=None, wall=60, expect_complete=True, ast=None, keep_world=True, sched_obj=None, draw_ctx_fn=None):
     """Generate one molecule from `text` under the simulator.  Returns RunOutcome."""
     g = boot.load()
     out = RunOutcome()
@@ -76,11 +76,11 @@ def run_molecule(text, sched_kwargs, props=("C04", "C05", "C06", "C07", "C08"), 
     except Exception as exc:
         out.harness_error = f"reader failed on workload text: {exc!r}"
         return out
-    sched = Scheduler(**sched_kwargs)
+    sched = sched_obj if sched_obj is not None else Scheduler(**sched_kwargs)
     out.sched = sched
     world = World(sched, embed=embed, embed_fault_at=embed_fault_at)
     world.forced_draws = forced_draws
-    world.draw_ctx_fn = draw_ctx_factory(cap_mass)
+    world.draw_ctx_fn = draw_ctx_fn if draw_ctx_fn is not None else draw_ctx_factory(cap_mass)
     out.world = world
     old = signal.signal(signal.SIGALRM, _alarm)
     signal.alarm(wall)
